@@ -461,6 +461,27 @@ func runC12(c *ev.Ctx) {
 			runtime.GC()
 		}
 	}
+	// long lists of ordinary (uniform) values whose lengths are not multiples of anything convenient: a list
+	// split across workers or blocks must still count its last few values
+	{
+		long := []int{65535, 65536, 65537, 65551, 100003, 262147, 1000003}
+		if c.Lite() {
+			long = long[:4]
+		}
+		for k, n := range long {
+			r := gen.NewRng(gen.Mix(seed, 1215, uint64(n)))
+			qs := make([]float64, n)
+			for j := range qs {
+				qs[j] = r.Float()
+			}
+			// the tail carries weight: the last 40 values all fall into one interval
+			for j := n - 40; j < n; j++ {
+				qs[j] = (float64(k%10) + r.Float()) / 10
+			}
+			cases = append(cases, tqCase{qs})
+			c.Count("long_awkward_length_lists", 1)
+		}
+	}
 	// every list length 1..400 once (a length is a parameter too)
 	for n := 1; n <= 400; n++ {
 		r := gen.NewRng(gen.Mix(seed, 1214, uint64(n)))
